@@ -75,3 +75,20 @@ Fixpoint run_events (evs : list (nat * nat)) (p : pending) : list nat * pending 
     ((if fin then [f] else []) ++ fs, p'')
   end.
 Definition events_of (p : pending) : list (nat * nat) := flat_map (fun fd => map (fun d => (fst fd, d)) (snd fd)) p.
+
+(* ------------------------------------------------------------------ 1b. slot traces (executable) *)
+(* events observed on the real slot queue: a token is taken / put back *)
+Inductive sev := EAcq (t : nat) | ERel (t : nat).
+Fixpoint remove_tok (t : nat) (l : list nat) : list nat :=
+  match l with [] => [] | x :: r => if Nat.eqb x t then r else x :: remove_tok t r end.
+(* accepts a trace iff every acquisition takes a token that is free and every release returns a token that
+   is out; returns the free tokens at the end, the number still held and the maximum held at any time *)
+Fixpoint slot_trace (free : list nat) (evs : list sev) (held maxheld : nat) : option (list nat * nat * nat) :=
+  match evs with
+  | [] => Some (free, held, maxheld)
+  | EAcq t :: r =>
+    if existsb (Nat.eqb t) free then slot_trace (remove_tok t free) r (S held) (Nat.max maxheld (S held)) else None
+  | ERel t :: r =>
+    if existsb (Nat.eqb t) free then None
+    else match held with O => None | S h => slot_trace (t :: free) r h maxheld end
+  end.
